@@ -109,7 +109,7 @@ def obligations(tier):
            ['RP66V1.ToLAS.single_rp66v1_file_to_las', 'write_logical_index_to_las', '_write_array_section_to_las', '_add_start_stop_step_to_dictionary', 'write_well_information_to_las',
             'LAS.core.WriteLAS.write_curve_and_array_section_to_las', 'util.bin_file_type.binary_file_type_from_path', 'common.Slice.Slice.first/last/count'],
            harness='C11_tolas', func='rp66v1_to_las', timeout=280 if q else 1200, parts=20, unblock=True, classify=_classify_conv('rp66')),
-        Ob('lis_to_las', 'ch', 'LIS file with 3 data records (2, 2..3, 1 frames), direct/indirect X, TIF on/off; selector none / Slice(-2..2, {-1,2,4,6}, 1..3) / Sample(1..3)',
+        Ob('lis_to_las', 'ch', 'LIS file with 3 data records (2, 2..3, 1 frames), optionally preceded by a format specification without data, direct/indirect X, TIF on/off; selector none / Slice(-2..2, {-1,2,4,6}, 1..3) / Sample(1..3)',
            ['LIS.ToLAS.single_lis_file_to_las', 'write_las_file', 'write_well_information_section', 'write_array_section', 'LIS.core.LogPass.LogPass.setFrameSet', 'common.Slice.Slice.first/last/step'],
            harness='C11_tolas', func='lis_to_las', timeout=280 if q else 1200, parts=12, unblock=True, classify=_classify_conv('lis')),
         Ob('bit_to_las', 'ch', 'BIT file with 1..2 channels, two blocks of 1..3 and 1..2 frames, either direction; selector none / Slice(-2..2, {-1,2,3,5}, 1..3) / Sample(1..3); channel subset',
